@@ -10,6 +10,10 @@ pub fn dispatch(v: &Value) -> Value {
         "graph" => crate::server_cmds::graph_cmd(v),
         #[cfg(feature = "server_dto")]
         "db_roundtrip" => crate::server_cmds::db_roundtrip(v),
+        #[cfg(feature = "server_dto")]
+        "handler_chain" => crate::server_cmds::handler_chain(v),
+        #[cfg(feature = "server_dto")]
+        "running_tasks" => crate::server_cmds::running_tasks_cmd(v),
         "compile" => compile_cmd(v),
         "sem_text" => sem_text(v),
         "adf_persist" => adf_persist(v),
